@@ -2,6 +2,8 @@ package main
 
 import (
 	"fmt"
+	"go/ast"
+	"go/token"
 	"go/types"
 	"math/big"
 	"strings"
@@ -53,6 +55,9 @@ func (x *Exec) callCommon(fr *frame, st *State, cc *ssa.CallCommon, fnv Value, a
 		return r
 	}
 	if fc := x.prog.contracts.Funcs[name]; fc != nil && fc.HasSpec() && !x.forceInline {
+		if fc.CallersInline {
+			return x.inlineWithFacts(fr, st, callee, fc, args, bind)
+		}
 		return x.applyContract(fr, st, callee, fc, args, site)
 	}
 	if fc := x.prog.contracts.Externs[name]; fc != nil && !(x.forceInline && len(callee.Blocks) > 0) {
@@ -256,10 +261,10 @@ func (x *Exec) applyContract(fr *frame, st *State, callee *ssa.Function, fc *Fun
 		opts.ghost[g.Name] = x.evalExpr(cfr, &pre, g.Expr, opts)
 	}
 	for i, r := range fc.Requires {
-		g := x.evalBoolClause(cfr, &pre, r, opts)
+		g := x.evalGoalClause(cfr, &pre, r, opts)
 		x.vc.oblige(&Obligation{Name: fmt.Sprintf("%s.pre%d", siteName, i+1), Kind: "pre", Func: fr.name,
 			Guard: st.reach, Goal: g, Src: r.Src, Pos: fmt.Sprintf("%s:%d", r.File, r.Line)})
-		x.vc.assume(mkImplies(st.reach, g), "call precondition established")
+		x.vc.assume(mkImplies(st.reach, x.evalBoolClause(cfr, &pre, r, opts)), "call precondition established")
 	}
 	// havoc modifies
 	post := cst.clone()
@@ -445,4 +450,75 @@ func (x *Exec) addSliceBackings(st *State, o *Object, roots map[*Object]bool) {
 		}
 	}
 	walk(x.contents(st, o))
+}
+
+// inlineWithFacts checks the callee's preconditions, executes its body in place (exact post-state,
+// no havoc) and then assumes the selected postconditions, which the callee's own verification
+// establishes for exactly this post-state.
+func (x *Exec) inlineWithFacts(fr *frame, st *State, callee *ssa.Function, fc *FuncContract, args []Value, bind []Value) Value {
+	n := x.count(fr.name + "#call." + callee.Name())
+	siteName := fmt.Sprintf("%s#call.%s@%d", fr.name, callee.Name(), n)
+	names := map[string]Value{}
+	for i, p := range callee.Params {
+		names[p.Name()] = args[i]
+	}
+	pre := st.clone()
+	pre.names = names
+	cfr := &frame{fn: callee, fc: fc, name: shortFuncName(callee)}
+	opts := &evalOpts{old: &pre, ghost: map[string]Value{}}
+	for _, g := range fc.Ghosts {
+		opts.ghost[g.Name] = x.evalExpr(cfr, &pre, g.Expr, opts)
+	}
+	for i, r := range fc.Requires {
+		g := x.evalGoalClause(cfr, &pre, r, opts)
+		x.vc.oblige(&Obligation{Name: fmt.Sprintf("%s.pre%d", siteName, i+1), Kind: "pre", Func: fr.name,
+			Guard: st.reach, Goal: g, Src: r.Src, Pos: fmt.Sprintf("%s:%d", r.File, r.Line)})
+		x.vc.assume(mkImplies(st.reach, x.evalBoolClause(cfr, &pre, r, opts)), "call precondition established")
+	}
+	saveNP := x.nopanic
+	x.nopanic = false // the callee's own unit proves its safety under the preconditions just checked
+	out, res, ok := x.runFunc(callee, args, bind, *st, false)
+	x.nopanic = saveNP
+	if !ok {
+		st.reach = tFalse
+		return x.freshOpaqueOrValueSig(callee.Signature, "noreturn")
+	}
+	*st = out
+	callerNames := st.names
+	st.names = names
+	defer func() { st.names = callerNames }()
+	post := st // facts are evaluated in the caller's state itself (memoised opaque applications persist)
+	opts.result = res
+	for _, e := range fc.Ensures {
+		use := false
+		for _, l := range fc.InlineFacts {
+			if l == e.Label {
+				use = true
+			}
+		}
+		if !use {
+			continue
+		}
+		g := x.evalBoolClause(cfr, post, e, opts)
+		x.vc.assume(mkImplies(st.reach, g), "proved postcondition ["+e.Label+"] of "+callee.Name())
+		// a fact of the shape  opaqueMacro(args) == E : from here on the memoised value of the opaque
+		// application is E itself (equal on every path through this call), which lets the solvers'
+		// rewriters cancel terms instead of reasoning about an uninterpreted atom
+		if be, ok := e.Expr.(*ast.BinaryExpr); ok && be.Op == token.EQL {
+			if ce, ok := be.X.(*ast.CallExpr); ok {
+				if id, ok := ce.Fun.(*ast.Ident); ok && x.isOpaque(id.Name) {
+					if tobj := x.trackObj["uf."+id.Name]; tobj != nil {
+						if cur, ok := st.mem[tobj].(Tup); ok {
+							rhs := x.evalExpr(cfr, post, be.Y, opts)
+							if rs, ok := rhs.(Sc); ok {
+								elems := append([]Value{Sc{T: x.vc.def("zt", rs.T), Signed: rs.Signed}}, cur.Elems[1:]...)
+								st.mem[tobj] = Tup{Elems: elems}
+							}
+						}
+					}
+				}
+			}
+		}
+	}
+	return res
 }
